@@ -74,14 +74,14 @@ class Tree:
         for a, b in ranges:
             out += lines[i:a]
             self.n += 1
-            name = "f%d.inc" % self.n
+            name = rnd.choice(["f%d.inc", "F%d.INC", "Part%d.Inc", "f%d.inc"]) % self.n        # file names are kept as written
             place = rnd.choice(allow)
             self.places.append(place)
             inc = line("include", p=name, abs=False)
             if place == "samedir":
                 cpath = d + "/" + name
             elif place == "subdir":
-                inc["p"] = "sub%d/%s" % (self.n, name)
+                inc["p"] = "%s%d/%s" % (rnd.choice(["sub", "Sub", "SUB"]), self.n, name)
                 cpath = d + "/" + inc["p"]
             elif place == "caller":
                 cpath = VR + "/ext/" + name
